@@ -120,7 +120,7 @@ def decide_lf(res, prob, rng):
         mp = {str(k): float(mp[k]) for k in mp.keys()}
         wp = word_probs(model, states, mp)
     bins = prob.get("bins", 1)
-    bin_names = [f"bin{i}" for i in range(bins)] if bins > 1 else [None]
+    bin_names = (prob.get("bin_names") or [f"bin{i}" for i in range(bins)]) if bins > 1 else [None]
     if bins > 1:
         bprobs = np.array(lf.get_param_value("bprobs"), dtype=float)
         rates = np.array([lf.get_param_value("rate", bin=b) for b in bin_names], dtype=float)
@@ -185,6 +185,38 @@ def decide_lf(res, prob, rng):
                 F = wp[:, None] * P
                 if np.abs(F - F.T).max() > 1e-9:
                     res.witness(f"C05/detailed-balance-broken-under-P/{fam}", model=model, **detail)
+    if bins > 1 and not solved and M.rate_param_names(model):
+        # (closed-form models report no Q; for parameter-free models the table accessor raises ValueError because Q has
+        # no bin dimension there - DESIGN 7.4, not a statement of this property)
+        # the whole table of uncalibrated matrices: entry (bin, edge) is the calibrated Q of that edge times the edge's
+        # length times THAT bin's rate, and its exponential is the P the function uses for that bin and edge
+        try:
+            table = lf.get_all_rate_matrices(calibrated=False)
+        except Exception as ex:  # noqa: BLE001
+            res.evals += 1
+            res.witness(exc_mechanism("C05/get_all_rate_matrices", ex), model=model, replay_case=rc)
+            table = {}
+        enames_ = {e["name"]: e for e in enodes}
+        named = "default-names" if not prob.get("bin_names") else "user-names"
+        for key, qd in table.items():
+            key = tuple(str(k) for k in (key if isinstance(key, tuple) else (key,)))
+            b_ = [k for k in key if k in bin_names]
+            e_ = [k for k in key if k in enames_]
+            if len(b_) != 1 or len(e_) != 1:
+                continue
+            Qcal = lf.get_rate_matrix_for_edge(e_[0], calibrated=True).to_array()
+            exp_ = Qcal * enames_[e_[0]]["length"] * rates[bin_names.index(b_[0])]
+            got_ = qd.to_array()
+            res.evals += 1
+            res.count("uncalibrated-table-entry-checked")
+            res.count("uncalibrated-table:" + named + (":11+bins" if bins > 10 else ""))
+            if not np.allclose(got_, exp_, rtol=1e-9, atol=1e-12):
+                res.witness(f"C05/uncalibrated-Q-table/entry-is-not-Q-times-length-times-its-bins-rate/{named}", model=model, bin=b_[0], edge=e_[0], maxdiff=float(np.abs(got_ - exp_).max()), replay_case=rc)
+                break
+            P_ = lf.get_psub_for_edge(e_[0], bin=b_[0]).to_array()
+            if np.abs(M.expm(got_, 1.0) - P_).max() > 1e-8:
+                res.witness(f"C05/uncalibrated-Q-table/exponential-is-not-the-bins-P/{named}", model=model, bin=b_[0], edge=e_[0], replay_case=rc)
+                break
     # length sweep on one edge through the lf (P(0)=I, semigroup)
     e = rng.choice(enodes)
     nm = e["name"]
@@ -388,6 +420,9 @@ def run_case(case):
         Q = np.array(case["Q"])
         check_backends(res, Q, None, case["label"], {"kind": "one-adv", "Q": case["Q"], "label": case["label"]}, random.Random(0), adversarial=True)
         return res
+    if kind == "one-unaligned":
+        check_unaligned_route(res, case["prob"], random.Random(0))
+        return res
     if kind == "one-userpred":
         decide_userpred(res, case["spec"])
         return res
@@ -402,11 +437,15 @@ def run_case(case):
     if kind == "lf":
         model = case["model"]
         for i in range(case["n"]):
-            bins = rng.choice([1, 1, 3]) if M.kind_of(model) == "nuc" else 1
+            bins = rng.choice([1, 1, 3, 3, 11]) if M.kind_of(model) == "nuc" and model not in M.SOLVED else (rng.choice([1, 1, 3]) if M.kind_of(model) == "nuc" else 1)
             prob = M.gen_problem(rng, model, ntips=rng.randint(3, 4), ncols=3, ambig=0.0, scoped=rng.random() < 0.4, bins=bins, expm_setting=None if model in M.SOLVED else rng.choice([None, "eigen", "checked", "pade", "either"]), zero_frac=0.15)
             if rng.random() < 0.3:
                 prob["params"] = M.random_params(rng, model, wide=True)
+            if bins == 3 and i % 2 == 1:
+                prob["bin_names"] = ["slow", "medium", "fast"]  # declared order differs from sorted order
             decide_lf(res, prob, rng)
+            if i == 0:
+                check_unaligned_route(res, prob, rng)
             if i == 0:
                 res.sample({"model": model, "params": prob["params"], "edge_params": prob["edge_params"], "mprobs": prob["mprobs"], "expm": prob.get("expm")})
     elif kind == "adversarial":
@@ -420,6 +459,47 @@ def run_case(case):
             if i == 0:
                 res.sample({"adversarial": label, "params": params, "pi": pi.tolist()})
     return res
+
+
+# ---------------------------------------------------------------------------
+# the sequence-alignment route (aligned=False): the pair-HMM aligners take Q and the exponentiator from here
+
+
+def check_unaligned_route(res, prob, rng):
+    from cogent3 import make_tree, make_unaligned_seqs
+
+    model = prob["model"]
+    if model in M.SOLVED or prob.get("edge_params") or prob.get("bins", 1) > 1 or (prob.get("mprobs") and "positions" in prob["mprobs"]):
+        return
+    rc = {"kind": "one-unaligned", "prob": prob}
+    names = sorted(prob["aln"])[:2]
+    t = round(rng.uniform(0.05, 1.0), 4)
+    try:
+        sm = M.make_model(model, **({"gc": prob["gc"]} if prob.get("gc", 1) != 1 else {}))
+        lf = sm.make_likelihood_function(make_tree(f"({names[0]}:{t},{names[1]}:{t})"), aligned=False)
+        lf.set_sequences(make_unaligned_seqs({n: prob["aln"][n].replace("-", "") for n in names}, moltype=M.moltype_of(model)))
+        if prob.get("mprobs") is not None:
+            lf.set_motif_probs(prob["mprobs"])
+        for p_, v in prob["params"].items():
+            lf.set_param_rule(p_, init=v)
+        Q = np.array(lf.get_param_value("Q"), dtype=float)
+        P = np.array(lf.get_param_value("Qd")(t), dtype=float)
+    except Exception as ex:  # noqa: BLE001
+        res.evals += 1
+        res.witness(exc_mechanism("C05/unaligned-route/build-or-read", ex), model=model, replay_case=rc)
+        return
+    states = [str(x) for x in sm.get_alphabet()]
+    own, wp = M.build_Q(model, states, prob["params"], prob["mprobs"], sm=sm, gc=prob.get("gc", 1))
+    fam = M.kind_of(model)
+    check_Q(res, "unaligned-route/" + fam, Q, wp, model, {"replay_case": rc})
+    res.evals += 1
+    res.count("unaligned-route-checked")
+    res.count("unaligned-route:" + M.mprob_kind(model))
+    if np.abs(Q - own).max() > 1e-8:
+        res.witness(f"C05/unaligned-route/Q-differs-from-definition/{fam}", model=model, maxdiff=float(np.abs(Q - own).max()), replay_case=rc)
+    ref = M.expm(own, t)
+    if np.abs(P - ref).max() > 1e-8:
+        res.witness(f"C05/unaligned-route/P-differs-from-expm/{fam}", model=model, maxdiff=float(np.abs(P - ref).max()), replay_case=rc)
 
 
 # ---------------------------------------------------------------------------
@@ -563,5 +643,5 @@ def gen_userpred(rng):
 
 
 def required(counters, tier):
-    need = ["user-predicate-models-checked", "user-predicate-orderings-compared", "user-predicate-reversible-accepted", "user-predicate-reversible-with-directed-term:refused", "solved-model-edges", "other-edges-unchanged-checked", "checked-exponentiator-raised", "Q-checked", "P-checked", "P(0)=I-checked", "semigroup-checked", "stationarity-checked", "bin-rates-checked", "adversarial-Q", "backend:Fast", "backend:Checked", "backend:Pade", "backend:Taylor", "backend:SemiSymmetric", "setting:either", "setting:pade"]
+    need = ["unaligned-route-checked", "uncalibrated-table:user-names", "uncalibrated-table:default-names:11+bins", "user-predicate-models-checked", "user-predicate-orderings-compared", "user-predicate-reversible-accepted", "user-predicate-reversible-with-directed-term:refused", "solved-model-edges", "other-edges-unchanged-checked", "checked-exponentiator-raised", "Q-checked", "P-checked", "P(0)=I-checked", "semigroup-checked", "stationarity-checked", "bin-rates-checked", "adversarial-Q", "backend:Fast", "backend:Checked", "backend:Pade", "backend:Taylor", "backend:SemiSymmetric", "setting:either", "setting:pade"]
     return [n for n in need if not counters.get(n)]
